@@ -180,27 +180,30 @@ func (i *Instance) ShutdownCallbacks() []error {
 // Restart replaces the servers in i with new servers created from
 // executing the newCasketfile. Upon success, it returns the new
 // instance to replace i. Upon failure, i will not be replaced.
-func (i *Instance) Restart(newCasketfile Input) (*Instance, error) {
+func (i *Instance) Restart(newCasketfile Input) (inst *Instance, err error) {
 	log.Println("[INFO] Reloading")
 
 	i.wg.Add(1)
 	defer i.wg.Done()
 
-	var err error
 	// if something went wrong on restart then run onRestartFailed callbacks
 	defer func() {
 		r := recover()
+		if r != nil {
+			// a panic while the new instance was set up is a failed
+			// restart like any other: i is not replaced
+			inst, err = i, fmt.Errorf("restart panicked: %v", r)
+		}
 		if err != nil || r != nil {
 			for _, fn := range i.OnRestartFailed {
 				if err := fn(); err != nil {
 					log.Printf("[ERROR] Restart failed callback returned error: %v", err)
 				}
 			}
-			if err != nil {
-				log.Printf("[ERROR] Restart failed: %v", err)
-			}
 			if r != nil {
 				log.Printf("[PANIC] Restart: %v", r)
+			} else if err != nil {
+				log.Printf("[ERROR] Restart failed: %v", err)
 			}
 		}
 	}()
@@ -498,8 +501,10 @@ func startWithListenerFds(cdyfile Input, inst *Instance, restartFds map[string]r
 	// if the load fails, the registry must be left as it was
 	oldEventHooks := cloneEventHooks()
 	var err error
+	completed := false
 	defer func() {
-		if err != nil {
+		// (a panic in a directive's setup unwinds through here with err still nil)
+		if err != nil || !completed {
 			restoreEventHooks(oldEventHooks)
 			instancesMu.Lock()
 			for i, otherInst := range instances {
@@ -575,6 +580,7 @@ func startWithListenerFds(cdyfile Input, inst *Instance, restartFds map[string]r
 	started = true
 	mu.Unlock()
 
+	completed = true
 	return nil
 }
 
